@@ -47,6 +47,10 @@ PRESETS = {
 
 def policy_of(strict_latex_spaces):
     v = strict_latex_spaces
+    if isinstance(v, dict):
+        # the documented dictionary form: missing keys are off, 'in-equations' is itself any accepted value (or None)
+        return {'mc': bool(v.get('between-macro-and-chars', False)), 'lc': bool(v.get('between-latex-constructs', False)),
+                'ac': bool(v.get('after-comment', False)), 'eq': v.get('in-equations', None)}
     if v is True or v == 'on':
         return PRESETS['strict']
     if v is False or v is None or v == 'off' or v == 'macros':
@@ -72,7 +76,7 @@ class Renderer(object):
     def eq_policy(self, P):
         if P['eq'] is None:
             return P
-        return PRESETS[P['eq']]
+        return policy_of(P['eq'])
 
     def render(self, doc):
         return self.block(doc, self.P0)
